@@ -57,6 +57,10 @@ func c11Universe(seed int64, size int) []any {
 		// equal key sets whose values differ in opposite directions, the empty key among them (comparison must go by
 		// the least differing key, whatever order a map is walked in)
 		O{"": 1, "a": 2}, O{"": 2, "a": 1}, O{"": 1, "a": 1}, O{"": 2, "a": 2}, O{"a": 1, "b": 2, "c": 3}, O{"a": 1, "b": 3, "c": 2}, O{"a": 2, "b": 1, "c": 1}, O{"": nil, "\x00": 1}, O{"": 1, "\x00": nil})
+	// integers beyond the range of a double (more than 1024 bits), both signs, as *big.Int and as literals: against a float
+	// they behave like the infinities, against each other exactly
+	huge := "1" + strings.Repeat("0", 320)
+	u = append(u, bigS(huge), bigS("-"+huge), json.Number(huge), json.Number("-"+huge), bigS("-"+huge+"1"), A{bigS("-" + huge), 1.5})
 	r := rand.New(rand.NewPCG(uint64(seed), 0xc11))
 	for len(u) < size {
 		v := gen.RandValue(r, 3)
@@ -186,6 +190,28 @@ func keyOf(v any) any {
 	return nil
 }
 
+// keyMulti is the key of `_by(.a[]?)`: the array of ALL outputs of the key filter (none for a missing or scalar .a, the
+// elements of an array, the values of an object in key order). _by compares these arrays, whatever their lengths.
+func keyMulti(v any) any {
+	m, _ := v.(map[string]any)
+	switch a := m["a"].(type) {
+	case []any:
+		return append([]any{}, a...)
+	case map[string]any:
+		ks := make([]string, 0, len(a))
+		for k := range a {
+			ks = append(ks, k)
+		}
+		sort.Strings(ks)
+		out := []any{}
+		for _, k := range ks {
+			out = append(out, a[k])
+		}
+		return out
+	}
+	return []any{}
+}
+
 func stableSorted(arr []any, key func(any) any) []keyed {
 	ks := make([]keyed, len(arr))
 	for i, v := range arr {
@@ -212,8 +238,12 @@ var kC11Cons = run.NewKind("c11.consumer", func(c *run.Ctx, t c11Cons) *run.Fail
 		return run.Failf("%s on %s: got %s, %s %s", t.Fn, run.Clip(strictKey(arr)), run.Clip(strictKey(got)), what, run.Clip(want))
 	}
 	c.Nontrivial(t.Fn + strictKey(arr) + strictKey(x))
+	keyOf := keyOf
+	if strings.Contains(t.Fn, "[]?") {
+		keyOf = keyMulti
+	}
 	switch t.Fn {
-	case "sort", "sort_by(.a)":
+	case "sort", "sort_by(.a)", "sort_by(.a[]?)":
 		key := ident
 		if t.Fn != "sort" {
 			key = keyOf
@@ -230,7 +260,7 @@ var kC11Cons = run.NewKind("c11.consumer", func(c *run.Ctx, t c11Cons) *run.Fail
 		if strictList(g) != strictList(want) {
 			return fail(got, strictList(want), "the stable ordered permutation is")
 		}
-	case "unique", "unique_by(.a)":
+	case "unique", "unique_by(.a)", "unique_by(.a[]?)":
 		key := ident
 		if t.Fn != "unique" {
 			key = keyOf
@@ -269,7 +299,7 @@ var kC11Cons = run.NewKind("c11.consumer", func(c *run.Ctx, t c11Cons) *run.Fail
 				}
 			}
 		}
-	case "group_by(.a)", "group_by(.)":
+	case "group_by(.a)", "group_by(.)", "group_by(.a[]?)":
 		key := keyOf
 		if t.Fn == "group_by(.)" {
 			key = ident
@@ -291,7 +321,7 @@ var kC11Cons = run.NewKind("c11.consumer", func(c *run.Ctx, t c11Cons) *run.Fail
 		if strictList(g) != strictList(want) {
 			return fail(got, strictList(want), "the partition of the sorted input is")
 		}
-	case "min", "max", "min_by(.a)", "max_by(.a)":
+	case "min", "max", "min_by(.a)", "max_by(.a)", "min_by(.a[]?)", "max_by(.a[]?)":
 		key := ident
 		if strings.Contains(t.Fn, "_by") {
 			key = keyOf
@@ -644,10 +674,37 @@ func init() {
 			}
 			r := c.Rand("c11")
 			n := c.N(250000, 3000000)
-			fns := []string{"sort", "sort_by(.a)", "unique", "unique_by(.a)", "group_by(.a)", "group_by(.)", "min", "max", "min_by(.a)", "max_by(.a)", "bsearch", "minus", "indices", "index", "rindex"}
+			fns := []string{"sort", "sort_by(.a)", "unique", "unique_by(.a)", "group_by(.a)", "group_by(.)", "min", "max", "min_by(.a)", "max_by(.a)", "bsearch", "minus", "indices", "index", "rindex",
+				"sort_by(.a[]?)", "group_by(.a[]?)", "unique_by(.a[]?)", "min_by(.a[]?)", "max_by(.a[]?)"}
 			for i := 0; i < n; i++ {
 				fn := fns[r.IntN(len(fns))]
 				arr := c11Array(r, c11U, strings.Contains(fn, "(.a)"))
+				if strings.Contains(fn, "[]?") {
+					// keys with a varying number of outputs: .a is an array of 0..3 values, an object, a scalar or missing
+					arr = arr[:min(len(arr), 40)]
+					few := []any{1, 1.0, 2, "x", nil, A{1}, A{1, 2}, json.Number("2"), false, json.Number("1.0")}
+					for j := range arr {
+						o := O{"t": j}
+						switch r.IntN(7) {
+						case 0:
+						case 1:
+							o["a"] = few[r.IntN(len(few))]
+						case 2:
+							o["a"] = O{"p": few[r.IntN(len(few))], "q": few[r.IntN(len(few))]}
+						default:
+							a := make(A, r.IntN(4))
+							for l := range a {
+								if r.IntN(4) == 0 {
+									a[l] = c11U[r.IntN(len(c11U))]
+								} else {
+									a[l] = few[r.IntN(len(few))]
+								}
+							}
+							o["a"] = a
+						}
+						arr[j] = o
+					}
+				}
 				var x any
 				switch fn {
 				case "bsearch":
